@@ -87,6 +87,9 @@ M += [
  ("C11","nomethod-yields-receiver","compiler.go",'		if !rv.IsValid() {\n			return nil, fmt.Errorf("\'%s\' does not have a method named \'%s\' (%s.%s)", node.Callee.String(), mname, node.Callee.String(), mname)\n		}\n','		if !rv.IsValid() {\n			return rc.Interface(), nil\n		}\n'),
  ("C05","nomethod-yields-receiver","compiler.go",'		if !rv.IsValid() {\n			return nil, fmt.Errorf("\'%s\' does not have a method named \'%s\' (%s.%s)", node.Callee.String(), mname, node.Callee.String(), mname)\n		}\n','		if !rv.IsValid() {\n			return rc.Interface(), nil\n		}\n'),
 ]
+M += [
+ ("C14","all-hands-out-shared-map","helpers/map.go",'	m := make(map[string]interface{}, len(h.helpers))\n	for k, v := range h.helpers {\n		m[k] = v\n	}\n\n	return m\n}\n','	return h.helpers\n}\n'),
+]
 def main():
     only = sys.argv[1:] 
     for prop,name,f,old,new in M:
